@@ -107,7 +107,8 @@ def eigAll (G : Gr) (x : Nat → Rat) : String :=
 /-- round 5: the per-component wrapper of the two random-walk betweennesses
 (`Model/NsiComp.lean`) on any undirected network: the component lists, the six argument patterns
 through the component loop with copy-back, and the flag "the loop stores at every node the value
-of its own component's sub-network at its position there" (`perNode`). -/
+of its own component's sub-network at its position there" (`perNode`; round 5c: proved for every
+undirected network, `per_component_loop_eq_per_node` — the flag is a cross-check only). -/
 def compAll (G : Gr) : String :=
   let idx := List.range G.n
   let opt (o : Option (List Rat)) : String := match o with | some l => showRats l | none => "singular"
